@@ -31,6 +31,22 @@ pub struct Dyn {
     pub v: Fv,
 }
 
+/// A typed value that serialises one top-level key more than the schema
+/// declares (the struct is a revision ahead of the collection's schema), the
+/// extra key after / before the declared ones.
+#[derive(Serialize, Deserialize)]
+pub struct DynExtraLast {
+    pub _id: u64,
+    pub v: Fv,
+    pub zz: Fv,
+}
+#[derive(Serialize, Deserialize)]
+pub struct DynExtraFirst {
+    pub aa: Fv,
+    pub _id: u64,
+    pub v: Fv,
+}
+
 #[derive(Clone, Copy, Debug, PartialEq, Eq)]
 pub enum Entry {
     /// `Document::set_field`
@@ -39,7 +55,18 @@ pub enum Entry {
     TryFrom,
     /// `Document::set_field_as(&value)` (typed field-by-field entry)
     SetAs,
+    /// `FieldType::extract(value.try_into_cbor())`, the result stored with `set_field`
+    Extract,
+    /// `FieldEntry::coerce(value)`, the result stored with `set_field`
+    /// (what the server's doc.update does with client values)
+    Coerce,
+    /// `FieldValue::serialized(&value, Some(type))`, the result stored with `set_field`
+    Serialized,
 }
+
+/// every write entry
+pub const ALL_ENTRIES: [Entry; 6] =
+    [Entry::Set, Entry::TryFrom, Entry::SetAs, Entry::Extract, Entry::Coerce, Entry::Serialized];
 
 impl Entry {
     pub fn name(&self) -> &'static str {
@@ -47,7 +74,19 @@ impl Entry {
             Entry::Set => "set_field",
             Entry::TryFrom => "try_from",
             Entry::SetAs => "set_field_as",
+            Entry::Extract => "extract",
+            Entry::Coerce => "coerce",
+            Entry::Serialized => "serialized",
         }
+    }
+    pub fn from_name(s: &str) -> Entry {
+        ALL_ENTRIES.into_iter().find(|e| e.name() == s).unwrap_or(Entry::Set)
+    }
+    /// true when the library itself picks the variants (from the CBOR shape
+    /// of what the caller handed in); false when the caller hands in a
+    /// finished `FieldValue` that is stored as it is.
+    pub fn extracts(&self) -> bool {
+        !matches!(self, Entry::Set)
     }
 }
 
@@ -98,6 +137,7 @@ pub fn skeleton(ft: &Ft) -> String {
         Ft::Array(ts) if ts.is_empty() => "Arr[]".into(),
         Ft::Array(ts) if ts.len() == 1 => format!("Arr[{}]", skeleton(&ts[0])),
         Ft::Array(ts) => format!("Tup[{}]", ts.iter().map(skeleton).collect::<Vec<_>>().join(",")),
+        Ft::Map(m) if m.is_empty() => "Open{}".into(),
         Ft::Map(m) => match is_wildcard(m) {
             Some((k, t)) => format!("Wild{}({})", variant(&Fv::from(k.clone())), skeleton(t)),
             None => format!(
@@ -111,16 +151,29 @@ pub fn skeleton(ft: &Ft) -> String {
 
 /// First place where two values differ, as (type chain, variant wanted,
 /// variant got) — the shape class of a read-back mismatch.
-fn first_diff(ft: &Ft, want: &Fv, got: &Fv) -> String {
+fn first_diff(ft: &Ft, want: &Fv, got: &Fv, strict: bool) -> String {
     match (ft, want, got) {
         (Ft::Option(t), w, g) if !matches!(w, Fv::Null) && !matches!(g, Fv::Null) => {
-            format!("Opt>{}", first_diff(t, w, g))
+            format!("Opt>{}", first_diff(t, w, g, strict))
+        }
+        // no declared variant below this point: container chain + variant pair of the first differing leaf
+        (Ft::Array(ts), Fv::Array(_), Fv::Array(_)) if ts.is_empty() && strict => {
+            format!("Arr[]>{}", {
+                let d = model::first_untyped_diff(want, got);
+                d.strip_prefix("arr>").unwrap_or(&d).to_string()
+            })
+        }
+        (Ft::Map(ts), Fv::Map(_), Fv::Map(_)) if ts.is_empty() && strict => {
+            format!("Open{{}}>{}", {
+                let d = model::first_untyped_diff(want, got);
+                d.strip_prefix("map>").unwrap_or(&d).to_string()
+            })
         }
         (Ft::Array(ts), Fv::Array(a), Fv::Array(b)) if !ts.is_empty() && a.len() == b.len() => {
             for (i, (x, y)) in a.iter().zip(b).enumerate() {
                 let t = if ts.len() == 1 { &ts[0] } else { &ts[i.min(ts.len() - 1)] };
-                if !model::same_declared(t, x, y) {
-                    return format!("{}>{}", if ts.len() == 1 { "Arr" } else { "Tup" }, first_diff(t, x, y));
+                if !model::same_field(t, x, y, strict) {
+                    return format!("{}>{}", if ts.len() == 1 { "Arr" } else { "Tup" }, first_diff(t, x, y, strict));
                 }
             }
             format!("{}:{}!={}", skeleton(ft), variant(want), variant(got))
@@ -136,9 +189,9 @@ fn first_diff(ft: &Ft, want: &Fv, got: &Fv) -> String {
                     None => ts.get(k),
                 };
                 if let Some(t) = t
-                    && !model::same_declared(t, x, y)
+                    && !model::same_field(t, x, y, strict)
                 {
-                    return format!("{}>{}", if wild.is_some() { "Wild" } else { "Keyed" }, first_diff(t, x, y));
+                    return format!("{}>{}", if wild.is_some() { "Wild" } else { "Keyed" }, first_diff(t, x, y, strict));
                 }
             }
             format!("{}:{}!={}", skeleton(ft), variant(want), variant(got))
@@ -217,6 +270,31 @@ fn write(case: &Case, entry: Entry) -> Written {
             }
             doc
         }
+        Entry::Extract | Entry::Coerce | Entry::Serialized => {
+            let extracted = match entry {
+                Entry::Extract => case
+                    .value
+                    .clone()
+                    .try_into_cbor()
+                    .and_then(|c| case.ft.extract(c))
+                    .map_err(|e| format!("extract: {e}")),
+                Entry::Coerce => schema
+                    .get_field_or_err(FIELD)
+                    .and_then(|f| f.coerce(case.value.clone()))
+                    .map_err(|e| format!("coerce: {e}")),
+                _ => Fv::serialized(case.value, Some(case.ft)).map_err(|e| format!("serialized: {e}")),
+            };
+            let extracted = match extracted {
+                Ok(v) => v,
+                Err(e) => return Written::Rejected(e),
+            };
+            let mut doc = Document::new(schema.clone());
+            doc.set_id(1);
+            if let Err(e) = doc.set_field(FIELD, extracted) {
+                return Written::Rejected(format!("{}: set_field of the extracted value: {e}", entry.name()));
+            }
+            doc
+        }
     };
     // A Document the entry point handed out is an accepted write: anything
     // that serialises it stores it. (`Collection::add` re-runs
@@ -250,7 +328,7 @@ pub fn run_case(case: &Case, entry: Entry, t: &mut Tally) {
             let w = if c == Class::Valid { Some(model::declared(ft, case.value)) } else { None };
             (c, w)
         }
-        Entry::TryFrom | Entry::SetAs => match model::classify_extract(ft, case.value) {
+        _ => match model::classify_extract(ft, case.value) {
             Extract::Accept(d) => (Class::Valid, Some(d)),
             Extract::Reject => (Class::Invalid, None),
             Extract::Unspec => (Class::Unspec, None),
@@ -290,8 +368,8 @@ pub fn run_case(case: &Case, entry: Entry, t: &mut Tally) {
         let back = read_back(case.schema, &bytes);
         let typed: Option<Result<Dyn, String>> = match (&back, entry) {
             (Ok(b), Entry::TryFrom) => Some(b.clone().try_into::<Dyn>().map_err(|e| e.to_string())),
-            // typed read side of the field-by-field entry
-            (Ok(b), Entry::SetAs) => Some(b.get_field_as::<Fv>(FIELD).map(|v| Dyn { _id: 1, v }).map_err(|e| e.to_string())),
+            // typed read side of the field-by-field entries
+            (Ok(b), Entry::SetAs | Entry::Serialized) => Some(b.get_field_as::<Fv>(FIELD).map(|v| Dyn { _id: 1, v }).map_err(|e| e.to_string())),
             _ => None,
         };
         Ok((stored, back, typed))
@@ -328,7 +406,7 @@ pub fn run_case(case: &Case, entry: Entry, t: &mut Tally) {
                 return;
             }
             // the written one, in the declared variant
-            let want = match want.or(stored) {
+            let want = match want.or(stored.clone()) {
                 Some(w) => w,
                 None => {
                     fail(t, "written-field-missing", skeleton(ft), "accepted document does not hold the field".into());
@@ -358,10 +436,37 @@ pub fn run_case(case: &Case, entry: Entry, t: &mut Tally) {
                 fail(
                     t,
                     "readback-differs",
-                    first_diff(ft, &want, got),
+                    first_diff(ft, &want, got, false),
                     format!("read back {} but the written field in the declared variant is {}", short(got), short(&want)),
                 );
                 return;
+            }
+            // the field the accepted in-memory document holds (what indexes are
+            // maintained from) against the field read from the stored form.
+            // Where the library itself chose the variants at write time
+            // (every entry but set_field) the comparison is variant-exact in
+            // undeclared positions too.
+            let strict = entry.extracts();
+            match &stored {
+                Some(held) if model::same_field(ft, held, got, strict) => {}
+                Some(held) => {
+                    fail(
+                        t,
+                        "written-differs-from-read",
+                        first_diff(ft, held, got, strict),
+                        format!(
+                            "the accepted document holds {} but its stored form reads back as {}{}",
+                            short(held),
+                            short(got),
+                            if strict { " (variant-exact: the library chose the variants at write time)" } else { "" }
+                        ),
+                    );
+                    return;
+                }
+                None => {
+                    fail(t, "written-field-missing", skeleton(ft), "accepted document does not hold the field".into());
+                    return;
+                }
             }
             if let Some(typed) = typed {
                 match typed {
@@ -385,5 +490,77 @@ pub fn run_case(case: &Case, entry: Entry, t: &mut Tally) {
                 }));
             }
         }
+    }
+}
+
+/// `Document::try_from` of a typed value that carries a (non-null) top-level
+/// key the schema does not declare, the declared field holding a valid value:
+/// either the write is refused, or the stored document converts back to the
+/// typed value that was written (extra key included). Accepting it and losing
+/// the key is a violation ("converting it back to the original typed value
+/// reproduces that value").
+pub fn run_undeclared_key(ft: &Ft, schema: &Arc<Schema>, value: &Fv, extra: &Fv, first: bool, t: &mut Tally) {
+    t.evaluations += 1;
+    let pos = if first { "extra-key-first" } else { "extra-key-last" };
+    let outcome = catch_unwind(AssertUnwindSafe(|| -> Result<Option<String>, String> {
+        let doc = if first {
+            Document::try_from(schema.clone(), &DynExtraFirst { aa: extra.clone(), _id: 1, v: value.clone() })
+        } else {
+            Document::try_from(schema.clone(), &DynExtraLast { _id: 1, v: value.clone(), zz: extra.clone() })
+        };
+        let doc = match doc {
+            Ok(d) => d,
+            Err(_) => return Ok(None),
+        };
+        let mut bytes = Vec::new();
+        if cbor2::to_writer(&doc, &mut bytes).is_err() {
+            return Ok(None);
+        }
+        let back = read_back(schema, &bytes).map_err(|e| format!("accepted, then unreadable: {e}"))?;
+        let same = if first {
+            back.try_into::<DynExtraFirst>().map(|d| model::canon_eq(&d.aa, extra) && model::canon_eq(&d.v, value))
+        } else {
+            back.try_into::<DynExtraLast>().map(|d| model::canon_eq(&d.zz, extra) && model::canon_eq(&d.v, value))
+        };
+        match same {
+            Ok(true) => Ok(Some("kept".into())),
+            Ok(false) => Err("accepted, but converting the stored document back gives a different typed value".into()),
+            Err(e) => Err(format!("accepted, but the stored document cannot be converted back to the typed value: {e}")),
+        }
+    }));
+    let problem = match outcome {
+        Ok(Ok(None)) => {
+            t.rejected += 1;
+            None
+        }
+        Ok(Ok(Some(_))) => {
+            t.accepted += 1;
+            None
+        }
+        Ok(Err(e)) => Some(("undeclared-top-level-key-lost", e)),
+        Err(_) => Some(("panic", "panicked".to_string())),
+    };
+    if let Some((kind, detail)) = problem {
+        if t.violations.len() >= VIOLATION_RECORD_CAP {
+            t.violations_not_recorded += 1;
+            return;
+        }
+        t.violations.push(Violation {
+            signature: format!("C13|try_from|{kind}|{pos}|{}", variant(extra)),
+            summary: format!(
+                "try_from of a typed value with field v = {} (type {:?}) and the undeclared top-level key {} = {}: {}",
+                short(value),
+                ft,
+                if first { "aa" } else { "zz" },
+                short(extra),
+                detail
+            ),
+            replay: json!({
+                "undeclared_key": pos,
+                "type": ft,
+                "value": if codec::too_big(value) { json!(null) } else { codec::enc(value) },
+                "extra": codec::enc(extra),
+            }),
+        });
     }
 }
